@@ -169,7 +169,17 @@ def install():
     D.none2dt.__defaults__ = (now,)
     D.dt.now = now
     D.ndt.now = now
-    logging.disable(logging.CRITICAL)
+    # the library logs (a try_* wrapper built with verbose=True warns with the error text): the log calls are made as shipped -
+    # level checks, filters and all - but whatever handlers were installed are replaced by one that discards the record
+    for nm in [n_ for n_ in list(logging.root.manager.loggerDict) if n_ == 'pyg' or n_.startswith('pyg.') or n_.startswith('pyg_')] + ['pyg']:
+        lg = logging.getLogger(nm)
+        for h in list(lg.handlers):
+            lg.removeHandler(h)
+        lg.addHandler(logging.NullHandler())
+        lg.propagate = False
+    logging.lastResort = logging.NullHandler()
+    for h in list(logging.getLogger().handlers):
+        logging.getLogger().removeHandler(h)
     warnings.filterwarnings('ignore')
     _installed = True
 
